@@ -1,4 +1,4 @@
-SPECIFICATION Spec
+SPECIFICATION SpecL
 CONSTANT Backend = "lmdb"
 CONSTRAINT Bound
 VIEW View
